@@ -129,12 +129,16 @@ class EOFBootstrapper(_BaseBootstrapper, EOF):
         bst_components = bst_components * signs
         bst_scores = bst_scores * signs
 
+        # Shallow copies: DataContainer.add() renames and set_attrs() re-attributes the
+        # arrays, which must not leak into the data of the bootstrapped model
         self.data.add(
-            name="input_data", data=model.data["input_data"], allow_compute=False
+            name="input_data",
+            data=model.data["input_data"].copy(deep=False),
+            allow_compute=False,
         )
         self.data.add(name="components", data=bst_components)
         self.data.add(name="scores", data=bst_scores)
-        self.data.add(name="norms", data=model.data["norms"])
+        self.data.add(name="norms", data=model.data["norms"].copy(deep=False))
         self.data.add(name="explained_variance", data=bst_expvar)
         self.data.add(name="total_variance", data=bst_total_variance)
 
